@@ -528,6 +528,7 @@ func (w *crWorld) newJobCase(rng *rand.Rand) {
 				t++
 			}
 			var job *execution.Job
+			before := v.obj.DeepCopy()
 			out := Guard(func() string {
 				j, err := jobconfig.NewJobFromJobConfig(v.obj, ty, time.Unix(t, 0))
 				if err != nil {
@@ -544,6 +545,30 @@ func (w *crWorld) newJobCase(rng *rand.Rand) {
 			if job == nil {
 				c.Count("newjob.err")
 				continue
+			}
+			// "a pure function of the JobConfig and the schedule time": the (informer-cached)
+			// JobConfig must come out unchanged, and the Job must not alias its maps — otherwise a
+			// second worker building another schedule time of the same JobConfig rewrites what this
+			// Job records before it is serialised.
+			if !reflect.DeepEqual(before, v.obj) {
+				c.Violate("C02", "pure-function", "NewJobFromJobConfig(%s, %d) modified the JobConfig it was given (cached object)", ty, t)
+				*v.obj = *before.DeepCopy()
+			}
+			for k := range job.Annotations {
+				job.Annotations[k] += "~probe"
+			}
+			for k := range job.Labels {
+				job.Labels[k] += "~probe"
+			}
+			if !reflect.DeepEqual(before, v.obj) {
+				c.Violate("C02", "pure-function", "the Job built for (%s, %d) shares its label/annotation maps with the JobConfig", ty, t)
+				*v.obj = *before.DeepCopy()
+			}
+			for k, val := range job.Annotations {
+				job.Annotations[k] = strings.TrimSuffix(val, "~probe")
+			}
+			for k, val := range job.Labels {
+				job.Labels[k] = strings.TrimSuffix(val, "~probe")
 			}
 			w.checkIdentity(job, v.obj, ty, t, "newjob")
 			if job.Spec.Template == &v.obj.Spec.Template.Spec || !reflect.DeepEqual(job.Spec.Template, &v.obj.Spec.Template.Spec) {
